@@ -18,7 +18,7 @@ from concurrent.futures import ThreadPoolExecutor
 VERIF = os.path.dirname(os.path.dirname(os.path.abspath(__file__)))
 SIM = os.path.join(VERIF, "sim")
 REPO = os.environ.get("VERIF_REPO", "/repo")
-BUILD_ROOT = os.path.join(VERIF, "build")
+BUILD_ROOT = os.environ.get("VERIF_BUILD_ROOT", os.path.join(VERIF, "build"))
 SCRATCH = os.path.realpath(REPO) != "/repo"      # mutant / seeded-change runs never touch committed evidence
 EVIDENCE = os.path.join(VERIF, "evidence") if not SCRATCH else os.path.join(BUILD_ROOT, "scratch-evidence")
 REPLAYS = os.path.join(VERIF, "replays") if not SCRATCH else os.path.join(BUILD_ROOT, "scratch-replays")
@@ -124,13 +124,14 @@ def build(variants=None, quiet=False):
             os.rename(os.path.join(out, "simrun.tmp"), os.path.join(out, "simrun"))
         if not quiet:
             print(f"[build] {','.join(todo)} for tree {key} in {time.time() - t0:.1f}s")
-    # prune old builds (keep the 3 most recent)
+    # prune old builds: keep the 4 most recent and anything touched in the last 30 minutes (another check may be using it)
     try:
-        dirs = sorted((d for d in glob.glob(os.path.join(BUILD_ROOT, "*")) if os.path.isdir(d)),
-                      key=os.path.getmtime, reverse=True)
         os.utime(root)
-        for d in dirs[3:]:
-            if d != root:
+        dirs = sorted((d for d in glob.glob(os.path.join(BUILD_ROOT, "*")) if os.path.isdir(d) and len(os.path.basename(d)) == 20),
+                      key=os.path.getmtime, reverse=True)
+        now = time.time()
+        for d in dirs[4:]:
+            if d != root and now - os.path.getmtime(d) > 1800:
                 shutil.rmtree(d, ignore_errors=True)
     except OSError:
         pass
